@@ -29,6 +29,7 @@ TOK = {
     "shebang": "#!/usr/bin/env run-cargo-script\n", "innerattr": "#![allow(unused)]\n", "hash": "#",
     "stmt_ref_over": 'warn!("[ref: 9999999999] over");', "stmt_ref_11": 'warn!("[ref: 42949672960] eleven");',
     "kvref_over": 'info!(ref = 9999999999; "kv over");', "open_ref": 'info!("[ref: ',
+    "nested_cmt": "/* o /* i */ info!(\"in nested comment\"); */ ", "blk_open2": "/* /* ",
     "cmt_mb4_2": "/* ab" + "\U0001F980" * 7 + " */\n", "cmt_mb4_3": "/* abc" + "\U0001F980" * 7 + " */\n",
 }
 
